@@ -3,10 +3,10 @@ from checks.storegen import World, NAMES, PLAIN, with_hdump
 from vlib.tok import f64, s as S, lst
 from checks import C04
 ID = 'C02'
-TECHNIQUE = "Lean 4 proof over a hand-written store model + a table translated from the source on every run (the container groups the backend constructors open: constructors agree, the model's names are the backend's) + differential correspondence (trace validation) with the built library"
-THEOREMS = ['Nix.Fields.accessor_overloads_name_one_field', 'Nix.Fields.every_written_field_is_read', 'Nix.Fields.every_read_field_is_written', 'Nix.Fields.reset_removes_what_the_setter_writes', 'Nix.Fields.getter_has_a_setter', 'Nix.Fields.model_field_names', 'Nix.Containers.constructors_agree', 'Nix.Containers.opened_by_both_constructors', 'Nix.Containers.model_container_names', 'Nix.St.newFile_rootOK', 'Nix.St.reopenRW_id', 'Nix.St.reopen_observe_eq', 'Nix.St.reopen_then_continue', 'Nix.St.setAttr_rootOK',
+TECHNIQUE = "Lean 4 proof over a hand-written store model + tables translated from the source on every run (container groups of the backend constructors; the attribute names of every accessor: getter, setter and reset agree; enum <-> string conversions are round trips) + differential correspondence (trace validation) with the built library"
+THEOREMS = ['Nix.Enums.dimension_type_roundtrip', 'Nix.Enums.dimension_type_strings_agree', 'Nix.Enums.link_type_roundtrip', 'Nix.Enums.link_type_strings_agree', 'Nix.Enums.link_type_vector_covers_the_enum', 'Nix.Enums.data_type_roundtrip', 'Nix.Enums.data_type_names_distinct', 'Nix.Fields.accessor_overloads_name_one_field', 'Nix.Fields.every_written_field_is_read', 'Nix.Fields.every_read_field_is_written', 'Nix.Fields.reset_removes_what_the_setter_writes', 'Nix.Fields.getter_has_a_setter', 'Nix.Fields.model_field_names', 'Nix.Containers.constructors_agree', 'Nix.Containers.opened_by_both_constructors', 'Nix.Containers.model_container_names', 'Nix.St.newFile_rootOK', 'Nix.St.reopenRW_id', 'Nix.St.reopen_observe_eq', 'Nix.St.reopen_then_continue', 'Nix.St.setAttr_rootOK',
             'Nix.St.newFile_sys', 'Nix.St.apply_sys', 'Nix.St.run_sys', 'Nix.St.Sys.rootOK', 'Nix.St.reopen_after_any_history', 'Nix.St.reopen_inside_any_history']
-LEAN_MODULES = ['NixModel.Props.C02Fields', 'NixModel.Gen.Fields', 'NixModel.Props.C02Containers', 'NixModel.Gen.Containers', 'NixModel.Props.C02', 'NixModel.Proofs.SysInv', 'NixModel.Proofs.SysOps', 'NixModel.Proofs.SysHistory']
+LEAN_MODULES = ['NixModel.Props.C13Enums', 'NixModel.Gen.Enums', 'NixModel.Props.C02Fields', 'NixModel.Gen.Fields', 'NixModel.Props.C02Containers', 'NixModel.Gen.Containers', 'NixModel.Props.C02', 'NixModel.Proofs.SysInv', 'NixModel.Proofs.SysOps', 'NixModel.Proofs.SysHistory']
 RULE = ('random create / modify / link / unlink / delete histories over all entity kinds (sources and sections nested up to depth 4); at random '
         'points and at the end: dump, close, reopen read-only or read-write (in the same process, and in a freshly started harness process for the '
         'second half), dump; flushes in between. The two dumps of the real library are compared with each other. non-trivial = the dump holds at '
